@@ -2,10 +2,14 @@ package main
 
 import (
 	"fmt"
+	"math"
 	"regexp"
 	"sort"
+	"strconv"
 	"strings"
 	"sync"
+
+	"golang.org/x/tools/go/ssa"
 )
 
 // ---------------------------------------------------------------------------------------------
@@ -154,8 +158,13 @@ func (c *Ctx) convxRun() []*opsVerdict {
 								bad("%s yields %s: the value passes through a narrower type (%s) on its way to %s and loses precision or range", where, oc.expr, strings.TrimSuffix(frag, "("), t2)
 							}
 						}
+						// whole-number payloads: int and int64 are one representation, a conversion between them changes nothing
+						normCell := normConv
+						if t1 == "Integer" || t1 == "Long" {
+							normCell = func(e string) string { return normIntIdentity(normConv(e)) }
+						}
 						if spec, ok := convUnsafeOracle[t1][t2]; ok && len(oc.conds) == 0 {
-							if want := xlateOracle(spec.expr); normConv(oc.expr) != normConv(want) {
+							if want := xlateOracle(spec.expr); normCell(oc.expr) != normCell(want) {
 								bad("%s yields %s; the statement's convention is %s", where, oc.expr, want)
 							}
 						}
@@ -164,7 +173,7 @@ func (c *Ctx) convxRun() []*opsVerdict {
 							k := t1 + ">" + t2
 							if manager == "TypeUnsafeVariantOperations" {
 								unsafeCells[k] = oc.expr
-							} else if u, ok := unsafeCells[k]; ok && normConv(u) != normConv(oc.expr) {
+							} else if u, ok := unsafeCells[k]; ok && normCell(u) != normCell(oc.expr) {
 								bad("%s yields %s where the type-unsafe manager yields %s", where, oc.expr, u)
 							}
 							ucMu.Unlock()
@@ -195,8 +204,14 @@ func (c *Ctx) convxRun() []*opsVerdict {
 		v.pos = c.Pos(fn.Pos())
 		for _, pair := range [][2]string{{"Integer", "Long"}, {"Integer", "Double"}, {"Long", "Double"}, {"Float", "Double"}, {"Integer", "Float"}} {
 			v.runs++
-			a := h.variant(pair[0], "a")
-			b := h.variant(pair[0], "b")
+			// constants: whether results are shared does not depend on the value, and a value-dependent branch
+			// inside a conversion must not leave this clause undecided
+			var pa, pb interface{} = int64(5), int64(7)
+			if pair[0] == "Float" {
+				pa, pb = float64(1.5), float64(2.5)
+			}
+			a := h.variant(pair[0], pa)
+			b := h.variant(pair[0], pb)
 			r1, o1 := h.m.Call(fn, h.mgr, a, h.vtByNm[pair[1]])
 			t1, ok1 := r1.(mTuple)
 			if o1.kind != "ok" || !ok1 {
@@ -214,7 +229,7 @@ func (c *Ctx) convxRun() []*opsVerdict {
 			after := h.payloadOf(t1[0])
 			if eq, known := h.m.equal(t1[0], t2[0]); (known && eq) || before != after {
 				if v.bad == "" {
-					v.bad = fmt.Sprintf("%s.Convert(%s a, %s) held %s; after Convert(%s b, %s) the same result holds %s: conversions share their result variant", manager, pair[0], pair[1], before, pair[0], pair[1], after)
+					v.bad = fmt.Sprintf("%s.Convert(%s %v, %s) held %s; after Convert(%s %v, %s) the same result holds %s: conversions share their result variant", manager, pair[0], pa, pair[1], before, pair[0], pb, pair[1], after)
 				}
 			}
 		}
@@ -275,6 +290,32 @@ func (c *Ctx) convxRun() []*opsVerdict {
 			v.pos = c.Pos(fn.Pos())
 			ints := []interface{}{int64(0), int64(1), int64(-1), int64(255), int64(256), int64(65536), int64(2147483647), int64(2147483648), int64(-2147483648), int64(-2147483649), int64(3000000000), int64(4294967296)}
 			big := []interface{}{int64(1) << 53, -(int64(1) << 53), int64(1) << 40}
+			// unit-scaled conversions (a count of milliseconds is a time span of count x 10^6 ns, a count of seconds a
+			// date-time): counts that are not multiples of a power of two, whose scaled value lies beyond 2^53 (not exact
+			// in a double), of both signs, up to the largest count whose time span exists; and whole seconds beyond 2^53
+			counts := func(unit int64) []interface{} {
+				out := append([]interface{}{}, ints...)
+				for _, n := range []int64{9000000001, 9007199255, 16777217, 123456789013, 1000000000001, 9000000000009, 9000000000013, 7777777777777, math.MaxInt64/unit - 1, math.MaxInt64 / unit} {
+					if n <= math.MaxInt64/unit {
+						out = append(out, n, -n)
+					}
+				}
+				return out
+			}
+			secs := append(counts(1), int64(1)<<53+1, -(int64(1)<<53 + 1), int64(9000000000000001), int64(1)<<62+1)
+			// the host's time.Unix on constants is a date-time that remembers its seconds (time.Unix(s, 0).Unix() == s for every s)
+			reUnix := regexp.MustCompile(`^time\.Unix\((-?[0-9]+),0\)$`)
+			h.m.external = func(m *mach, fn *ssa.Function, args []mv) (mv, bool) {
+				if fnFullName(fn) == "time.Time.Unix" && len(args) == 1 {
+					if sy, ok := args[0].(*mSym); ok {
+						if mm := reUnix.FindStringSubmatch(sy.name); mm != nil {
+							n, err := strconv.ParseInt(mm[1], 10, 64)
+							return n, err == nil
+						}
+					}
+				}
+				return nil, false
+			}
 			chains := []struct {
 				t1, t2 string
 				vals   []interface{}
@@ -286,13 +327,15 @@ func (c *Ctx) convxRun() []*opsVerdict {
 				{"Float", "Double", []interface{}{float64(0), float64(1.5), float64(-0.25), float64(float32(0.1)), float64(float32(3.0e38)), float64(float32(1e-40))}},
 				{"Boolean", "Integer", []interface{}{true, false}},
 				{"Boolean", "Long", []interface{}{true, false}},
-				{"Integer", "TimeSpan", ints},
-				{"Long", "TimeSpan", ints},
+				{"Integer", "TimeSpan", counts(1000000)},
+				{"Long", "TimeSpan", counts(1000000)},
+				{"Integer", "DateTime", secs},
+				{"Long", "DateTime", secs},
 			}
 			for _, ch := range chains {
 				for _, val := range ch.vals {
 					v.runs++
-					where := fmt.Sprintf("%s %v -> %s -> %s", ch.t1, val, ch.t2, ch.t1)
+					where := fmt.Sprintf("%s.Convert, %s %v -> %s -> %s", manager, ch.t1, val, ch.t2, ch.t1)
 					src := h.variant(ch.t1, val)
 					want := h.payloadOf(src)
 					r1, o1 := h.m.Call(fn, h.mgr, src, h.vtByNm[ch.t2])
@@ -336,7 +379,83 @@ func (c *Ctx) convxRun() []*opsVerdict {
 						continue
 					}
 					if got := h.payloadOf(tp2[0]); got != want && v.bad == "" {
-						v.bad = fmt.Sprintf("%s: the round trip yields %s; the original value is %s", where, got, want)
+						v.bad = fmt.Sprintf("%s: the round trip yields %s; the original value is %s (every widening conversion round-trips: converting back yields the original value)", where, got, want)
+					}
+				}
+			}
+		}
+	}
+	// the type-safe whitelist on boundary values (concrete payloads): what the manager permits is a matter of the
+	// two types, not of the value - every permitted widening succeeds for every value of the source type, carries
+	// the requested type and equals what the type-unsafe manager returns for the same value
+	{
+		hs, hu := c.newVxHarness("TypeSafeVariantOperations"), c.newVxHarness("TypeUnsafeVariantOperations")
+		v := &opsVerdict{key: "variants.TypeSafeVariantOperations.Convert#whitelist-on-boundary-values"}
+		all = append(all, v)
+		fs, fu := c.lookupMethod(hs.mgrT, "Convert"), c.lookupMethod(hu.mgrT, "Convert")
+		if hs.fault != "" || hu.fault != "" || fs == nil || fu == nil {
+			v.undec = hs.fault + hu.fault + " Convert missing"
+		} else {
+			v.pos = c.Pos(fs.Pos())
+			whole := []interface{}{int64(0), int64(1), int64(-1), int64(255), int64(65536), int64(1) << 24, int64(1)<<24 + 1, -(int64(1)<<24 + 1), int64(33554431), int64(123456789), int64(-987654321),
+				int64(math.MaxInt32), int64(math.MinInt32), int64(1) << 40, int64(1)<<40 + 1, int64(1) << 53, int64(1)<<53 + 1, -(int64(1)<<53 + 1), int64(math.MaxInt64), int64(math.MinInt64)}
+			floats := []interface{}{float64(0), math.Copysign(0, -1), float64(1.5), float64(float32(0.1)), float64(float32(math.MaxFloat32)), float64(float32(math.SmallestNonzeroFloat32)), float64(float32(16777216)), math.Inf(1), math.Inf(-1)}
+			one := func(h *vxHarness, f *ssa.Function, t1 string, val interface{}, t2 string) (string, string) {
+				h.m.steps = 0
+				r, out := h.m.Call(f, h.mgr, h.variant(t1, val), h.vtByNm[t2])
+				tp, ok := r.(mTuple)
+				switch {
+				case out.kind == "panic":
+					return "panics: " + out.why, ""
+				case out.kind != "ok" || !ok || len(tp) != 2:
+					return "", out.why
+				}
+				if _, isNil := tp[1].(mNilT); !isNil {
+					code := errorCode(tp[1])
+					if code == "" {
+						code = mRender(tp[1])
+					}
+					return "fails with " + code, ""
+				}
+				if _, isNil := tp[0].(mNilT); isNil {
+					return "returns neither a result nor an error", ""
+				}
+				return "returns " + h.typeOf(tp[0]) + " " + h.payloadOf(tp[0]), ""
+			}
+			var srcs []string
+			for t1 := range convSafeWhitelist {
+				srcs = append(srcs, t1)
+			}
+			sort.Strings(srcs)
+			for _, t1 := range srcs {
+				vals := whole
+				if t1 == "Float" || t1 == "Double" {
+					vals = floats
+				}
+				for _, t2 := range convSafeWhitelist[t1] {
+					for _, val := range vals {
+						v.runs++
+						where := fmt.Sprintf("Convert(%s %v, %s)", t1, val, t2)
+						got, why := one(hs, fs, t1, val, t2)
+						ref, whyU := one(hu, fu, t1, val, t2)
+						switch {
+						case why != "":
+							if v.undec == "" {
+								v.undec = "TypeSafeVariantOperations." + where + ": " + why
+							}
+						case !strings.HasPrefix(got, "returns "+t2+" "):
+							if v.bad == "" {
+								v.bad = fmt.Sprintf("TypeSafeVariantOperations.%s %s; the type-safe manager permits the widening %s to %s, for every %s value, and the result carries exactly the requested type", where, got, t1, t2, t1)
+							}
+						case whyU != "":
+							if v.undec == "" {
+								v.undec = "TypeUnsafeVariantOperations." + where + ": " + whyU
+							}
+						case got != ref:
+							if v.bad == "" {
+								v.bad = fmt.Sprintf("TypeSafeVariantOperations.%s %s where the type-unsafe manager %s; wherever the type-safe manager succeeds it agrees with the type-unsafe one", where, got, ref)
+							}
+						}
 					}
 				}
 			}
@@ -354,7 +473,7 @@ func (c *Ctx) convxRun() []*opsVerdict {
 
 func init() {
 	register(&Rule{ID: "CONV.model", Floor: 24,
-		Doc: "Convert of both managers evaluated abstractly for every source × target type on a symbolic payload: requested-type tag, identity for own type / Object, the statement's numeric and temporal conventions as host expressions, the type-safe whitelist and its agreement with the type-unsafe manager, errors elsewhere; every conversion returns its own result object; round trips integer<->long<->double, float->double, boolean<->numeric, integer/long<->time span on boundary constants (0, ±1, around 2^8, 2^16, 2^31, 2^32, ±2^53) succeed and return the original",
+		Doc: "Convert of both managers evaluated abstractly for every source × target type on a symbolic payload: requested-type tag, identity for own type / Object, the statement's numeric and temporal conventions as host expressions, the type-safe whitelist and its agreement with the type-unsafe manager, errors elsewhere; every conversion returns its own result object; round trips integer<->long<->double, float->double, boolean<->numeric, integer/long<->time span and integer/long<->date-time on boundary constants (0, ±1, around 2^8, 2^16, 2^31, 2^32, ±2^53; odd millisecond / second counts of both signs whose scaled value lies beyond 2^53, up to the largest representable) succeed and return the original; the type-safe whitelist run on concrete boundary values (odd whole numbers beyond 2^24 and 2^53, int32 / int64 extremes, float extremes) succeeds for every value and equals the type-unsafe result",
 		Run: func(c *Ctx) []*Obligation {
 			o := newObl("CONV.model")
 			for _, v := range c.convxRun() {
@@ -401,4 +520,57 @@ func normConv(e string) string {
 		e = e[:innerStart] + e[loc[1]:j] + e[j+1:]
 	}
 	return e
+}
+
+// normIntIdentity removes conversions between int and int64 around whole-number expressions of a cell whose
+// payload symbols (x, c1, c2) are Integer or Long payloads: both types are 64-bit signed integers on the
+// platform the machine models, so such a conversion is the identity whatever it is applied to - a symbol, or
+// an expression built from the symbols and integer literals with integer operators. Anything else stays:
+// conversions to or from narrower integer types, floating-point conversions, host functions, comparisons.
+func normIntIdentity(e string) string {
+	for changed := true; changed; {
+		changed = false
+		for _, pre := range []string{"conv<int64>(", "conv<int>("} {
+			for from := 0; ; {
+				i := strings.Index(e[from:], pre)
+				if i < 0 {
+					break
+				}
+				i += from
+				j := matchingParen(e, i+len(pre)-1)
+				if j < 0 {
+					break
+				}
+				if inner := e[i+len(pre) : j]; isWholeNumberExpr(inner) {
+					e = e[:i] + inner + e[j+1:]
+					changed = true
+				} else {
+					from = i + len(pre)
+				}
+			}
+		}
+	}
+	return normTree(e)
+}
+
+var reWholeAtom = regexp.MustCompile(`^[-^]?(x|c1|c2|[0-9]+)$`)
+
+// isWholeNumberExpr: symbols x / c1 / c2 and integer literals combined by integer operators (as the machine prints them).
+func isWholeNumberExpr(e string) bool {
+	e = strings.NewReplacer("(", " ", ")", " ").Replace(e)
+	fs := strings.Fields(e)
+	if len(fs) == 0 {
+		return false
+	}
+	for _, f := range fs {
+		switch f {
+		case "+", "-", "*", "/", "%", "&", "|", "^", "&^", "<<", ">>":
+			continue
+		}
+		f = strings.TrimLeft(f, "-^")
+		if !reWholeAtom.MatchString(f) {
+			return false
+		}
+	}
+	return true
 }
